@@ -71,7 +71,13 @@ REFINED = ["add_one_in_place", "sub_one_in_place", "add_word_in_place", "sub_wor
            "sub_with_borrow REGENERATED from arch/generic/add.rs (every W) and arch/x86_64, arch/x86 (one intrinsic each; "
            "W = 64 / 32) compute exactly the model's addSameLen / subSameLen / subSameLenSwap "
            "(word_loops_over_regenerated_arch); at every other call site the regenerated routine returns the model's "
-           "s % 2^W, s / 2^W and d % 2^W, 1 - d / 2^W expressions (arch_step_is_model_step)"]
+           "s % 2^W, s / 2^W and d % 2^W, 1 - d / 2^W expressions (arch_step_is_model_step)",
+           "link to C19, second layer (round 8, Props/C01ArchDword.lean): add_dword_in_place / sub_dword_in_place (first word "
+           "overflowing_add / overflowing_sub, second word the REGENERATED add_with_carry / sub_with_borrow with the first "
+           "word's Boolean carry, then carry && add_one_in_place(words_hi)) and add_in_place / sub_in_place (split_at_mut, the "
+           "same-length loop over the regenerated routine, carry && add_one_in_place(lhs_hi)) written as the Rust functions "
+           "are the model's addDwordInPlace / subDwordInPlace / addInPlace / subInPlace, every W (generic), W = 64 / 32 "
+           "(x86_64 / x86 intrinsic routines) (add_rs_functions_over_regenerated_arch)"]
 FRONTIER = ["pow results between ~2^22 bits and the MAX_CAPACITY guard (2^22 < exp*shift < 2^64 - 64, or an odd part > 1 "
             "with a huge exponent): the model states the exact power, but neither side can be EXECUTED — the real code would "
             "really allocate (outcome 'out of memory' or success depends on the allocator and the machine, not on dashu), the "
@@ -84,7 +90,10 @@ FRONTIER = ["pow results between ~2^22 bits and the MAX_CAPACITY guard (2^22 < e
             "(C19's stated assumption), checked_sub, wrapping_neg, extend_word/split_dword/shrink_dword — compiler/hardware "
             "primitives, no executable model below them; the link is proved for the three same-length loops of add.rs as "
             "whole loops and for every other call site as a single step (arch_step_is_model_step), not by regenerating those "
-            "other loop bodies",
+            "other loop bodies; round 8: add_dword_in_place / sub_dword_in_place / add_in_place / sub_in_place are now linked as "
+            "whole functions too (Props/C01ArchDword.lean) — every function of add.rs that calls the routines is linked as a "
+            "whole; still per step only: sqr::simple (line 41), mul::simple add_mul_chunk / sub_mul_chunk top word, "
+            "Karatsuba / Toom-3 carry words",
             "THRESHOLD_KARATSUBA appears as the literal 192 in the Toom-3 scratch-potential argument (Proofs/Int/Memory.lean): a "
             "change of that constant is reported as a broken obligation (no-failing-input-found), not re-proved automatically"]
 RULE = ("operand sizes drawn from the size classes {0,1,2,3,4,5, thr-1,thr,thr+1 for thr in 24,32,192, 385, 400, 1025, 2049...} x "
@@ -588,7 +597,8 @@ LEVEL_NOTE = ("Trusted: Lean kernel; axioms propext/Classical.choice/Quot.sound;
               "script vlib/extract_intdispatch.py (fails closed on any construct outside its subset); arch primitives "
               "(overflowing_add/sub, the x86 _addcarry/_subborrow intrinsics, split_dword/extend_word) at their documented "
               "contracts — add_with_carry / sub_with_borrow themselves are regenerated (C19, Gen/ArchAdd.lean) and proved to be "
-              "the carry step of the word loops (Props/C01Arch.lean); "
+              "the carry step of the word loops (Props/C01Arch.lean) and of add_dword_in_place / sub_dword_in_place / add_in_place / "
+              "sub_in_place as whole functions (Props/C01ArchDword.lean); "
               "usize = 64 bits; pow results that would need a real allocation "
               "between ~2^22 bits and MAX_CAPACITY words are covered by theorem only (not executable on either side); "
               "buffer capacity policy / allocation layout is C17.")
@@ -596,6 +606,6 @@ TECHNIQUE = "Lean 4 refinement proofs (induction over word lists, all W) + diffe
 
 # Tie A: IBig sign tables regenerated from integer/src/{add_ops,mul_ops}.rs on every run
 USES_GEN = True
-GEN_PROPS = ["Dashu.Props.GenInt", "Dashu.Props.C01Dispatch", "Dashu.Props.C01Arch"]
-GEN_AUDIT = ["Dashu.Audit.GenInt", "Dashu.Audit.C01Dispatch", "Dashu.Audit.C01Arch"]
+GEN_PROPS = ["Dashu.Props.GenInt", "Dashu.Props.C01Dispatch", "Dashu.Props.C01Arch", "Dashu.Props.C01ArchDword"]
+GEN_AUDIT = ["Dashu.Audit.GenInt", "Dashu.Audit.C01Dispatch", "Dashu.Audit.C01Arch", "Dashu.Audit.C01ArchDword"]
 READY = True
